@@ -14,7 +14,7 @@ import (
 // poolAgeSeqCase: one goroutine drives Get / Put / Advance sequences on a Pool
 // with a max age under the virtual clock (installed only in the pool-age
 // families). Asserted: a resource handed out was idle for at most maxAge, was not
-// destroyed, is not owned; created-destroyed <= limit at every create; a Get with
+// destroyed, is not owned; a Get with
 // fewer than n resources out never blocks (expired idle resources do not count
 // against the limit) - decided by the stable-block rule, the sequence being the
 // only goroutine that could ever put something back.
@@ -25,6 +25,9 @@ func poolAgeSeqCase(c *kit.Case) {
 	defer kit.UninstallVClock()
 	r := c.R
 	for s := 0; s < seqs; s++ {
+		if skipAfterLeak(c, "pool-age") {
+			return
+		}
 		n := pickN(r)
 		maxAge := kit.Choose(r, []time.Duration{time.Nanosecond, 7 * time.Nanosecond, time.Millisecond, time.Second, time.Hour})
 		L := r.Range(6, 80)
